@@ -84,6 +84,7 @@ theorem openInputs_closed (fr : Frame) (r : Ref) (h : fr.closed = true) : openIn
     have := List.all_eq_true.mp h c hc
     cases c with
     | single n i => rfl
+    | thatSingle n i => rfl
     | all i => simp at this
   simp [openInputs, this, dedup]
 
@@ -98,7 +99,7 @@ theorem closed_frame_rejects (env : Env) (fr : Frame) (r : Ref) (hclosed : fr.cl
 
 /-- in particular: a name that is not the name of any column of a fully known frame -/
 theorem closed_frame_rejects_name (env : Env) (fr : Frame) (r : Ref) (hclosed : fr.closed = true)
-    (hname : ∀ n i, Col.single (some n) i ∈ fr → n ≠ r.name) (hglobal : globalCands env r = []) :
+    (hname : ∀ n i, (Col.single (some n) i ∈ fr ∨ Col.thatSingle (some n) i ∈ fr) → n ≠ r.name) (hglobal : globalCands env r = []) :
     resolve env fr r = .error (.unknown r) := by
   apply closed_frame_rejects env fr r hclosed _ hglobal
   intro c hc
@@ -107,7 +108,11 @@ theorem closed_frame_rejects_name (env : Env) (fr : Frame) (r : Ref) (hclosed : 
   | single n i =>
     cases n with
     | none => rfl
-    | some n => simp [Col.cand?, hname n i hc]
+    | some n => simp [Col.cand?, hname n i (Or.inl hc)]
+  | thatSingle n i =>
+    cases n with
+    | none => rfl
+    | some n => simp [Col.cand?, hname n i (Or.inr hc)]
 
 /-- the converse direction of the design: inference happens *only* when the frame still has a wildcard -/
 theorem inferred_only_if_open (env : Env) (fr : Frame) (r : Ref) (i n : Name)
@@ -124,6 +129,16 @@ theorem inferred_only_if_open (env : Env) (fr : Frame) (r : Ref) (i n : Name)
       cases col with
       | all j => simp [Col.cand?] at hcand
       | single nm inp =>
+        cases nm with
+        | none => simp [Col.cand?] at hcand
+        | some nm =>
+          simp only [Col.cand?] at hcand
+          split at hcand
+          · split at hcand
+            · simp at hcand
+            · split at hcand <;> simp at hcand
+          · simp at hcand
+      | thatSingle nm inp =>
         cases nm with
         | none => simp [Col.cand?] at hcand
         | some nm =>
@@ -303,6 +318,9 @@ example : stepFrame Env.std [] (frameAt good 1) (.derive [{ alias := some (n "k"
     [.single (some (n "u0")) (some (n "t0")), .single (some (n "a0")) (some (n "t0")), .single none (some (n "t0")),
      .single (some (n "u1")) (some (n "t1")), .single (some (n "a1")) (some (n "t1")), .single none (some (n "t1")),
      .single (some (n "k")) none] := by decide +kernel
+/-- in a join condition the two sides are different namespaces: a name both sides file under the same input is ambiguous -/
+example : resolve Env.std ([.single (some (n "k")) (some (n "t1"))] ++ asThat [.single (some (n "k")) (some (n "t1"))])
+    { qual := some (n "t1"), name := n "k" } = .error (.ambiguous { qual := some (n "t1"), name := n "k" }) := by decide +kernel
 /-- scalar as a relation -/
 example : accept { good with main := { good.main with src := .scalar } } = false := by decide +kernel
 
